@@ -21,4 +21,24 @@ def unpack2 {α : Type} : List α → R (α × α)
   | [a, b] => .ok (a, b)
   | _ => .error .value
 
+/-- FoundFragment objects (the model's `Found`: the fragment and the list of references to the OverlapResults that hold it) live in an arena;
+    a reference is an index into it -/
+def getFound (heap : List Found) (r : Nat) : Found := heap.getD r { fragment := default, scaffolds := [] }
+
+/-- `fnd.add_scaffold(s)` through a reference -/
+def foundAdd (heap : List Found) (r : Nat) (s : Nat) : List Found :=
+  match heap[r]? with
+  | some f => heap.set r { f with scaffolds := f.scaffolds ++ [s] }
+  | none => heap
+
+/-- `fnd.remove_scaffold(s)` = `list.remove`: the first equal element goes, ValueError when there is none -/
+def foundRemove (heap : List Found) (r : Nat) (s : Nat) : R (List Found) :=
+  match removeFirst (getFound heap r).scaffolds s with
+  | some rest => .ok (match heap[r]? with | some f => heap.set r { f with scaffolds := rest } | none => heap)
+  | none => .error .value
+
+/-- `del d[k]`: KeyError when the key is absent -/
+def dictDel {κ ν : Type} [DecidableEq κ] (d : List (κ × ν)) (k : κ) : R (List (κ × ν)) :=
+  if dHas d k then .ok (dDel d k) else .error .key
+
 end AgpTpf.PyRt
